@@ -1,4 +1,5 @@
 //! Reference models (DESIGN.md section 5).
+pub mod asg_form;
 pub mod ast_extract;
 pub mod gen;
 pub mod prog;
